@@ -621,6 +621,12 @@ def atom_losses(ref, cur, cats, reach=None):
                     nm = x.split(" ")[0]
                     if any(nm in reach(path).get(g, ()) and (g + x[len(nm):]) in hv for g in gained_calls):
                         continue
+                if c in ("grd", "grdn", "byp") and not x.startswith("["):
+                    # the callee stopped being a step with conditions of its own (a procedure that now returns a count / a bool is a value-returning
+                    # call and has no guard atoms at all any more): the call is still made (`call` atom), only its classification changed
+                    nm = x.split(" <= ")[0]
+                    if nm in set(hatoms.get("call", [])) and not any(y.split(" <= ")[0] == nm for y in hatoms.get("grd", [])):
+                        continue
                 if c == "ord":
                     ea, _, eb = x.partition(" < ")
                     hc_ = set(hatoms.get("call", []))
